@@ -655,10 +655,14 @@ class CausalInference(object):
                 var: state for var, state in zip(adjustment_set, state_comb)
             }
             evidence = {**do, **adj_evidence}
-            values.append(
-                infer.query(variables, evidence=evidence, show_progress=False)
-                * p_z.get_value(**adj_evidence)
-            )
+            weight = p_z.get_value(**adj_evidence)
+            # A stratum of probability zero contributes nothing (and conditioning on
+            # it is undefined for the inference engine).
+            if weight != 0:
+                values.append(
+                    infer.query(variables, evidence=evidence, show_progress=False)
+                    * weight
+                )
 
             if show_progress and config.SHOW_PROGRESS:
                 pbar.update(1)
